@@ -634,7 +634,7 @@ UNITS["v_read_only"] = dict(
 
 # ------------------------------------------------------------------------------------------------
 UNITS["v_constants"] = dict(
-    prop=["C12", "C01"], tier="q", prelude=["interp.rs", "typestate.rs"], native_witness={"C12": ["constants"]},
+    prop=["C12", "C01"], tier="q", prelude=["interp.rs", "typestate.rs"], native_witness={"C12": ["constants", "op_typing"], "C01": ["op_typing", "constants"]},
     fns=[
         dict(id="details_merge", file="src/compiler/type_def.rs", impl="impl Details", name="merge",
              orig_sig="fn merge(self, other: Self) -> Self",
@@ -781,13 +781,13 @@ UNITS["v_reported_paths"] = dict(
 
 # ------------------------------------------------------------------------------------------------
 UNITS["v_assign_types"] = dict(
-    prop=["C08", "C12", "C01"], tier="q", prelude=["assigntypes.rs"],
+    prop=["C08", "C12", "C01"], tier="q", prelude=["assigntypes.rs"], native_witness={"C08": ["assign_typing"], "C01": ["assign_typing"]},
     fns=[dict(
         id="variant_type_info", file=EXPR + "assignment.rs", impl="impl<U> Expression for Variant<Target, U>", name="type_info",
         orig_sig="fn type_info(&self, state: &TypeState) -> TypeInfo",
         wrap=("impl Variant {", "}"), sig="pub fn type_info(&self, state: &TypeState) -> (r: TypeInfo)",
-        rewrites=[dict(**{"from": "TypeDef::from(default.kind())", "to": "TypeDef::from_kind(default.kind())", "count": 1, "why": "From<Kind> for TypeDef"}),
-                  dict(**{"from": "TypeDef::from(Kind::bytes().or_null())", "to": "TypeDef::from_kind(kind_bytes_or_null())", "count": 1, "why": "From<Kind> for TypeDef; the bytes|null kind is opaque"})],
+        rewrites=[dict(**{"from": "TypeDef::from(", "to": "TypeDef::from_kind(", "optional": True, "why": "From<Kind> for TypeDef"}),
+                  dict(**{"from": "Kind::bytes().or_null()", "to": "kind_bytes_or_null()", "optional": True, "why": "the bytes|null kind is opaque"})],
         ensures=[
             ("C08.assign.default_in_ok_type", "`ok, err = e`: the type recorded for ok admits the stored default value (it is the type of e united with the default's kind), so the default written on failure belongs to ok's reported type",
              "self is Infallible ==> r.state.writes@.len() >= 2 && r.state.writes@[r.state.writes@.len() - 2].target == self->Infallible_ok.id@ && members(r.state.writes@[r.state.writes@.len() - 2].type_def).contains(value_member(self->Infallible_default))"),
@@ -813,7 +813,7 @@ def ty_clause(opset, text, oid):
 
 
 UNITS["v_op_types"] = dict(
-    prop=["C01", "C02"], tier="q", prelude=["optypes.rs"], native_witness={"C01": ["op_typing"], "C02": ["op_typing"]},
+    prop=["C01", "C02", "C12"], tier="q", prelude=["optypes.rs"], native_witness={"C01": ["op_typing"], "C02": ["op_typing"], "C12": ["op_typing"]},
     fns=[dict(
         id="op_type_info", file=OPRS, impl="impl Expression for Op", name="type_info",
         orig_sig="fn type_info(&self, state: &TypeState) -> TypeInfo",
@@ -836,6 +836,10 @@ UNITS["v_op_types"] = dict(
              "(self.opcode is Add || self.opcode is Sub || self.opcode is Mul || self.opcode is Eq || self.opcode is Ne || self.opcode is Gt || self.opcode is Ge || self.opcode is Lt || self.opcode is Le) && (self.lhs.spec_type(*state).fall@ || self.rhs.spec_type(self.lhs.spec_state(*state)).fall@) ==> r.result.fall@"),
             ("C02.op.div_infallible_only_safe", "`/` is typed infallible only when the divisor is a compile-time constant that is a non-zero integer or a normal float and the dividend can only be an integer or a float; its kind is float",
              "self.opcode is Div ==> r.result.m@ == set![FLOAT] && (!r.result.fall@ ==> (self.lhs.spec_type(*state).m@ == set![INTEGER] || self.lhs.spec_type(*state).m@ == set![FLOAT]) && (match self.rhs.spec_const(self.lhs.spec_state(*state)) { Some(Value::Integer(v)) => v != 0, Some(Value::Float(f)) => f.spec_normal(), _ => false }))"),
+            ("C12.op.div_constant_after_lhs", "the divisor constant that makes `/` infallible is the constant of the right operand in the state *after* the left operand's effects (the left operand runs first and may reassign what the right one reads)",
+             "(self.opcode is Div && !r.result.fall@) ==> (match self.rhs.spec_const(self.lhs.spec_state(*state)) { Some(Value::Integer(v)) => v != 0, Some(Value::Float(f)) => f.spec_normal(), _ => false })"),
+            ("C12.op.short_circuit_constant_before_lhs", "the left-operand constant that lets `||` / `&&` drop an operand is the left operand's constant in the state the operator starts in",
+             "(self.opcode is Or && self.lhs.spec_type(*state).m@.contains(BOOLEAN) && !(self.lhs.spec_const(*state) == Some(Value::Boolean(true)))) ==> self.rhs.spec_type(self.lhs.spec_state(*state)).m@.subset_of(r.result.m@)"),
             ("C01.op.err_union", "`a ?? b` admits every value of a and of b; it is fallible only if both are",
              "self.opcode is Err ==> self.lhs.spec_type(*state).m@.union(self.rhs.spec_type(self.lhs.spec_state(*state)).m@).subset_of(r.result.m@) && r.result.fall@ == (self.lhs.spec_type(*state).fall@ && self.rhs.spec_type(self.lhs.spec_state(*state)).fall@)"),
             ("C01.op.or_sound", "`a || b` admits every non-null value of a (when a can be truthy) and every value of b (when a can be null/false)",
@@ -1155,5 +1159,65 @@ UNITS["v_format_number"] = dict(
                       ("C05.format_number.no_scale", "without a scale the digits are those of the number's decimal rendering",
                        "(r is Ok && scale is None && value is Integer) ==> r->Ok_0 is Text && r->Ok_0->Text_0.parts@.len() >= 1")],
              safety_id="C04.format_number.safety", safety_text="no panic: the Decimal conversion is not unwrapped when it has no answer (non-finite or out-of-range floats), indices into `parts` are in range, the padding count does not underflow"),
+    ],
+)
+
+
+# ------------------------------------------------------------------------------------------------
+# C03: the declared type of slice() against what the runtime slice() (contract C28.slice.*) returns
+UNITS["v_slice_type"] = dict(
+    prop=["C03"], tier="q", prelude=["slicetypes.rs"], native_witness={"C03": ["stdlib_types"]},
+    fns=[
+        dict(id="slice_type_def", file="src/stdlib/slice.rs", impl="impl FunctionExpression for SliceFn", name="type_def",
+             orig_sig="fn type_def(&self, state: &state::TypeState) -> TypeDef",
+             wrap=("impl SliceFn {", "}"), sig="pub fn type_def(&self, state: &TypeState) -> (r: TypeDef)",
+             rewrites=[dict(**{"from": "TypeDef::from(Kind::never())", "count": 1, "to": "TypeDef::never()", "why": "From<Kind> for TypeDef"})],
+             ensures=[("C03.slice.array_elements", "every value slice() can return for an array argument belongs to the declared type: for every array in the argument's type and every in-range [s, e), the sub-array's element at each position has a kind the declared type allows at that position",
+                       "forall|a: Seq<int>, s: int, e: int| #![trigger a.subrange(s, e)] (self.value.spec_type(state).m@ == set![ARRAY] && array_in_type(a, self.value.spec_type(state)) && 0 <= s <= e <= a.len()) ==> array_in_type(a.subrange(s, e), r)"),
+                      ("C03.slice.string_kind", "for a string argument the declared type is string, and fallible (start may be out of range)",
+                       "self.value.spec_type(state).m@ == set![BYTES] ==> r.m@ =~= set![BYTES] && r.fall@"),
+                      ("C03.slice.general_kind", "for an argument of any other type the declared type admits strings and arrays of anything, and is fallible",
+                       "(self.value.spec_type(state).m@ != set![BYTES] && self.value.spec_type(state).m@ != set![ARRAY]) ==> r.fall@ && r.m@.contains(BYTES) && (forall|a: Seq<int>| array_in_type(a, r))")],
+             safety_id="C03.slice_type_def.safety"),
+    ],
+)
+
+
+# ------------------------------------------------------------------------------------------------
+# C19: Kind::union / merge at the level of collection kinds (the Kind-level dispatch around Collection::merge)
+KM = "src/value/kind/merge.rs"
+KM_FRAME = "final(self).bytes == old(self).bytes && final(self).integer == old(self).integer && final(self).float == old(self).float && final(self).boolean == old(self).boolean && final(self).timestamp == old(self).timestamp && final(self).regex == old(self).regex && final(self).null == old(self).null && final(self).undefined == old(self).undefined"
+UNITS["v_kind_merge"] = dict(
+    prop=["C19"], tier="q", prelude=["kindmerge.rs"], native_witness={"C19": ["kind_union"]},
+    fns=[
+        dict(id="merge_primitives", file=KM, impl="impl Kind", name="merge_primitives",
+             orig_sig="fn merge_primitives(&mut self, other: &Self)",
+             wrap=("impl Kind {", "}"), sig="pub fn merge_primitives(&mut self, other: &Kind)",
+             ensures=[("C19.merge_primitives.contains_both", "merging the scalar members keeps every scalar member of both operands and touches no collection part",
+                       "scalar_sup(*final(self), *old(self)) && scalar_sup(*final(self), *other) && final(self).object == old(self).object && final(self).array == old(self).array")],
+             safety_id="C19.merge_primitives.safety"),
+        dict(id="merge_objects", file=KM, impl="impl Kind", name="merge_objects",
+             orig_sig="fn merge_objects(&mut self, other: Option<Box<Collection<Field>>>, overwrite: bool)",
+             wrap=("impl Kind {", "}"), sig="pub fn merge_objects(&mut self, other: Option<Box<Coll>>, overwrite: bool)",
+             ensures=[("C19.merge_objects.union_contains_both", "under the union strategy the merged kind admits every object either operand admits",
+                       "!overwrite ==> (forall|v: CollValue| #![trigger coll_member(v, *old(self).object->Some_0)] (old(self).object is Some && coll_member(v, *old(self).object->Some_0)) ==> object_member(v, *final(self))) && (forall|v: CollValue| #![trigger coll_member(v, *other->Some_0)] (other is Some && coll_member(v, *other->Some_0)) ==> object_member(v, *final(self)))"),
+                      ("C19.merge_objects.frame", "only the object part changes", KM_FRAME + " && final(self).array == old(self).array")],
+             safety_id="C19.merge_objects.safety"),
+        dict(id="merge_keep", file=KM, impl="impl Kind", name="merge_keep",
+             orig_sig="fn merge_keep(&mut self, other: Self, overwrite: bool)",
+             wrap=("impl Kind {", "}"), sig="pub fn merge_keep(&mut self, other: Kind, overwrite: bool)",
+             ensures=[("C19.merge_keep.scalars", "under the union strategy the merged kind keeps every scalar member of both operands",
+                       "!overwrite ==> scalar_sup(*final(self), *old(self)) && scalar_sup(*final(self), other)"),
+                      ("C19.merge_keep.objects", "under the union strategy the merged kind admits every object either operand admits",
+                       "!overwrite ==> (forall|v: CollValue| #![trigger object_member(v, *final(self))] (object_member(v, *old(self)) || object_member(v, other)) ==> object_member(v, *final(self)))"),
+                      ("C19.merge_keep.arrays", "under the union strategy the merged kind admits every array either operand admits",
+                       "!overwrite ==> (forall|v: CollValue| #![trigger array_member(v, *final(self))] (array_member(v, *old(self)) || array_member(v, other)) ==> array_member(v, *final(self)))")],
+             safety_id="C19.merge_keep.safety"),
+        dict(id="union", file=KM, impl="impl Kind", name="union",
+             orig_sig="fn union(&self, other: Self) -> Self",
+             wrap=("impl Kind {", "}"), sig="pub fn union(&self, other: Kind) -> (r: Kind)",
+             ensures=[("C19.union.contains_both", "the union of two kinds admits every scalar member, every object and every array either operand admits",
+                       "scalar_sup(r, *self) && scalar_sup(r, other) && (forall|v: CollValue| #![trigger object_member(v, r)] (object_member(v, *self) || object_member(v, other)) ==> object_member(v, r)) && (forall|v: CollValue| #![trigger array_member(v, r)] (array_member(v, *self) || array_member(v, other)) ==> array_member(v, r))")],
+             safety_id="C19.union.safety"),
     ],
 )
